@@ -25,19 +25,20 @@ ASSUMPTIONS = [
     'presence nodes are named by plain host name',
 ]
 TRUSTED = ['pbt/fakezk.py', 'pbt/mastersim.py']
-BUDGET = {'quick': 3200, 'thorough': 96000}
+BUDGET = {'quick': 2400, 'thorough': 72000}
 
 PROFILE = {
     'weights': {'crashcycle': 8, 'crashrestart': 3, 'down': 4, 'up': 2,
                 'reboot': 2, 'rm': 3, 'prio': 3, 'app': 12, 'cycle': 3,
-                'adv_ret': 3, 'state': 2, 'rmsrvrace': 3},
-    'force': ['crashcycle', 'down', 'rmsrvrace'],
+                'adv_ret': 3, 'state': 2, 'rmsrvrace': 3, 'shrink': 4, 'allocscrash': 4},
+    'force': ['crashcycle', 'down', 'rmsrvrace', 'shrink', 'allocscrash'],
+    'after_shrink': ['crashcycle'],
     'extra_ops': ['crashcycle', 'crashrestart'],
     'pre': (3, 10),
     'max_ops': 20,
     'demand_hi': 6,
     'min_servers': 2,
-    'max_parts': 1,
+    'max_parts': 2,
     'retention': [None, None, '0s', '0s', '30s', '1h'],
 }
 
